@@ -655,7 +655,7 @@ def rule_childless(ctx):
     the set is a typestate kept by `contract_nodes_pair`: a node is in it iff it has more than one leaf and no
     children yet.  Linking a parent removes the parent and adds each child exactly when the child is such a
     node — a leaf in the set is 'partitioned' for ever, a missing intermediate is never divided."""
-    r = RuleResult("C05-CHILDLESS", "the set of nodes still to divide is maintained exactly", 3)
+    r = RuleResult("C05-CHILDLESS", "the set of nodes still to divide is maintained exactly", 4)
     tc = ctx.p.cls(C.CORE, "ContractionTree")
     f = tc.lookup("contract_nodes_pair")
     C.require(f is not None, "contract_nodes_pair not found")
@@ -723,6 +723,65 @@ def rule_childless(ctx):
             r.violation(k, C.loc(f, adds[0]), f"`{c}` joins the set under `{C.unparse(t, 60) if t is not None else 'no test'}`, expected "
                         f"`{c} not in self.children and len({c}) > 1`: a leaf (or an already divided node) in the set is handed "
                         f"to the partitioner again and again, a missing intermediate is never divided")
+    # (defect F26) the initial state: the root is "still to divide" only if it is not itself a leaf
+    init = tc.lookup("__init__")
+    k = ctx.key(init, "C05-CHILDLESS", "initial")
+    sts = [n for n in walk_local(init.node) if isinstance(n, ast.Assign) and any(C.unparse(t) == "self.childless" for t in n.targets)]
+    C.require(len(sts) >= 1, "__init__: initial `self.childless` not found")
+
+    def _is_n(y):
+        return C.unparse(y) in ("self.N", "N") or (isinstance(y, ast.Call) and dotted(y.func) == "len")
+
+    def _cmp(x, want_many):
+        """Is Compare ``x`` true exactly for 'more than one leaf' (want_many) / 'a single leaf' (not want_many)?"""
+        if not (isinstance(x, ast.Compare) and len(x.ops) == 1):
+            return False
+        l, op, rr = x.left, x.ops[0], x.comparators[0]
+        if _is_n(rr) and isinstance(l, ast.Constant):
+            flip = {ast.Lt: ast.Gt, ast.LtE: ast.GtE, ast.Gt: ast.Lt, ast.GtE: ast.LtE}
+            l, rr, op = rr, l, flip.get(type(op), type(op))()
+        if not (_is_n(l) and isinstance(rr, ast.Constant) and isinstance(rr.value, int)):
+            return False
+        v = rr.value
+        many = (isinstance(op, ast.Gt) and v == 1) or (isinstance(op, ast.GtE) and v == 2) or (isinstance(op, ast.NotEq) and v == 1)
+        single = (isinstance(op, ast.Eq) and v == 1) or (isinstance(op, ast.LtE) and v == 1) or (isinstance(op, ast.Lt) and v == 2)
+        return many if want_many else single
+
+    def _sized(e, in_true=True):
+        if isinstance(e, ast.BoolOp) and isinstance(e.op, ast.And) and in_true:
+            return any(_sized(v_, True) for v_ in e.values)
+        if isinstance(e, ast.UnaryOp) and isinstance(e.op, ast.Not):
+            return _sized(e.operand, not in_true)
+        return _cmp(e, in_true)
+
+    def _value_sized(e):
+        for x in ast.walk(e):
+            if isinstance(x, ast.IfExp):
+                body_root = any(isinstance(y, ast.Attribute) and y.attr == "root" for y in ast.walk(x.body))
+                if _sized(x.test, body_root):
+                    return True
+            if isinstance(x, (ast.ListComp, ast.GeneratorExp, ast.SetComp)) and any(_sized(c_, True) for g in x.generators for c_ in g.ifs):
+                return True
+        return False
+
+    ins = []
+    for st in sts:
+        nonempty = any(isinstance(x, (ast.List, ast.Tuple, ast.Set)) and x.elts for x in ast.walk(st.value)) or \
+            any(isinstance(x, ast.Name) and x.id == "root" or isinstance(x, ast.Attribute) and x.attr == "root" for x in ast.walk(st.value))
+        if nonempty:
+            ins.append(st)
+    for n in walk_local(init.node):
+        if isinstance(n, ast.Expr) and isinstance(n.value, ast.Call) and C.unparse(n.value.func) in ("self.childless.add", "self.childless.update"):
+            ins.append(n)
+    if not ins:
+        r.violation(k, C.loc(init, sts[0]), "the root never enters the set of nodes still to divide: build_divide returns an undivided tree")
+    for st in ins:
+        if _value_sized(getattr(st, "value", st)) or any(_sized(i_.test, t) for i_, t in C.enclosing_ifs(init, st)):
+            r.ok(k, C.loc(init, st), "the root starts in the set only when it has more than one leaf")
+        else:
+            r.violation(k, C.loc(init, st), f"`{C.unparse(st)}`: for a one-tensor network the root is a leaf, yet it starts in the set of "
+                        "nodes still to divide — contract_nodes_pair keeps leaves out (`len > 1`), nothing ever removes it, and "
+                        "`while tree.childless` in build_divide never terminates")
     return r
 
 
@@ -852,6 +911,264 @@ def rule_edgepath(ctx):
                         "explicit index orders are converted into complete, well-formed steps", lambda i: True, 4)
 
 
+def rule_cpstate(ctx):
+    """(seed C05_6) random-greedy simplifies once and copies the processor per trial; the copy contracts on with the
+    ids the source would have used.  Ids stay fresh only if every piece of state — the id counter among them — is
+    taken over from the *same* attribute of the source: a counter recomputed from something else (the number of
+    live nodes, say) reissues ids that are still in use after a simplification."""
+    r = RuleResult("C05-CPSTATE", "a copied processor takes every attribute, the id counter included, from its source", 10)
+    cp = _cp(ctx)
+    f = cp.lookup("copy")
+    C.require(f is not None, "ContractionProcessor.copy not found")
+    slots = None
+    for st in cp.node.body:
+        if isinstance(st, ast.Assign) and any(isinstance(t, ast.Name) and t.id == "__slots__" for t in st.targets):
+            slots = C.str_consts(st.value)
+    if slots is None:
+        init = cp.lookup("__init__")
+        slots = sorted({t.attr for n in walk_local(init.node) if isinstance(n, (ast.Assign, ast.AugAssign))
+                        for t in (n.targets if isinstance(n, ast.Assign) else [n.target])
+                        if isinstance(t, ast.Attribute) and isinstance(t.value, ast.Name) and t.value.id == "self"})
+    C.require(len(slots) >= 8, "ContractionProcessor state attributes not found")
+    fl = ctx.flow(f)
+    rets = [n for n in fl.returns() if n.ast.value is not None]
+    C.require(len(rets) == 1 and isinstance(rets[0].ast.value, ast.Name), "copy(): single `return new` expected")
+    new = rets[0].ast.value.id
+    stores = {}
+    for n in fl.cfg.nodes:
+        st = n.ast
+        if n.kind == "stmt" and isinstance(st, (ast.Assign, ast.AugAssign, ast.AnnAssign)):
+            tg = st.targets if isinstance(st, ast.Assign) else [st.target]
+            for t in tg:
+                if isinstance(t, ast.Attribute) and isinstance(t.value, ast.Name) and t.value.id == new:
+                    stores.setdefault(t.attr, []).append((n, st))
+    for a in slots:
+        cons = f"{C.BASIC}::{CP}.copy::C05-CPSTATE::{a}"
+        if a not in stores:
+            r.violation(cons, C.loc(f, f.node), f"copy() never sets `{a}` on the new processor")
+            continue
+        bad = None
+        for n, st in stores[a]:
+            if isinstance(st, ast.AugAssign) or st.value is None:
+                bad = (st, "is not a plain transfer")
+                break
+            d = fl.deps(st.value, n.id, "may")
+            attrs = {(x[1], x[2]) for x in d if x[0] == "attr"}
+            if ("self", a) not in attrs:
+                bad = (st, f"does not come from self.{a}")
+                break
+        if bad:
+            r.violation(cons, C.loc(f, bad[0]),
+                        f"`{C.unparse(bad[0])}`: the copy's `{a}` {bad[1]} — state the trials continue from "
+                        f"(for `ssa`: the next unused id) no longer matches the source's")
+        else:
+            r.ok(cons, C.loc(f, stores[a][0][1]), f"{a} taken from self.{a}")
+    return r
+
+
+def _guards_nonempty(test, name):
+    """Does ``test`` (taken as true) establish that sequence ``name`` has an element?"""
+    if isinstance(test, ast.Name) and test.id == name:
+        return True
+    if isinstance(test, ast.BoolOp) and isinstance(test.op, ast.And):
+        return any(_guards_nonempty(v, name) for v in test.values)
+    if isinstance(test, ast.Call) and dotted(test.func) == "len" and test.args and isinstance(test.args[0], ast.Name) and test.args[0].id == name:
+        return True
+    if isinstance(test, ast.Compare) and len(test.ops) == 1:
+        l, op, rgt = test.left, test.ops[0], test.comparators[0]
+        is_len = lambda e: isinstance(e, ast.Call) and dotted(e.func) == "len" and e.args and isinstance(e.args[0], ast.Name) and e.args[0].id == name
+        num = lambda e: e.value if isinstance(e, ast.Constant) and isinstance(e.value, int) else None
+        if is_len(l) and num(rgt) is not None:
+            return (isinstance(op, ast.Gt) and num(rgt) >= 0) or (isinstance(op, ast.GtE) and num(rgt) >= 1) or \
+                   (isinstance(op, ast.NotEq) and num(rgt) == 0)
+        if is_len(rgt) and num(l) is not None:
+            return (isinstance(op, ast.Lt) and num(l) >= 0) or (isinstance(op, ast.LtE) and num(l) >= 1)
+    return False
+
+
+def rule_emptypath(ctx):
+    """(defect F24) The explicit path of a one-tensor network is the empty sequence — `array_contract_tree` builds
+    exactly that (`optimize = ()`) — so the handlers the dispatchers register for tuples and lists must not look at
+    `optimize[0]` before knowing there is one."""
+    r = RuleResult("C05-EMPTYPATH", "explicit-path handlers accept the empty path of a one-tensor network", 3)
+    m = ctx.p.modules[C.INTERFACE]
+    handlers = {}
+    for f in m.all_funcs:
+        if f.name not in ("find_path", "find_tree"):
+            continue
+        for st in walk_local(f.node):
+            if not isinstance(st, ast.If):
+                continue
+            t = st.test
+            if not (isinstance(t, ast.Call) and dotted(t.func) == "isinstance" and len(t.args) == 2):
+                continue
+            names = {dotted(e) for e in (t.args[1].elts if isinstance(t.args[1], ast.Tuple) else [t.args[1]])}
+            if not names & {"tuple", "list"}:
+                continue
+            for a in st.body:
+                if isinstance(a, ast.Assign) and isinstance(a.value, ast.Name):
+                    handlers[a.value.id] = f.name
+    C.require(len(handlers) >= 2, "handlers registered for tuple/list paths not found in find_path/find_tree")
+    todo = []
+    for hn, via in sorted(handlers.items()):
+        h = next((f for f in m.all_funcs if f.name == hn and f.cls is None), None)
+        C.require(h is not None, f"handler {hn} not found")
+        params = [a.arg for a in h.node.args.args]
+        C.require(len(params) >= 4, f"{hn}: (inputs, output, size_dict, optimize) expected")
+        todo.append((h, params[3], f"registered by {via} for tuple/list paths"))
+    # every other function of the interface layer that is handed the caller's `optimize`
+    for path in (C.INTERFACE, C.UTILS):
+        for f in ctx.p.modules[path].all_funcs:
+            if f.name in handlers:
+                continue
+            if "optimize" in [a.arg for a in f.node.args.posonlyargs + f.node.args.args + f.node.args.kwonlyargs]:
+                todo.append((f, "optimize", "handed the caller's `optimize`"))
+    for h, pname, via in todo:
+        hn = h.qual if hasattr(h, "qual") else h.name
+        path = h.module.path
+        parents = {}
+        for n in ast.walk(h.node):
+            for c in ast.iter_child_nodes(n):
+                parents[c] = n
+        k = 0
+        for n in walk_local(h.node):
+            if not (isinstance(n, ast.Subscript) and isinstance(n.ctx, ast.Load) and isinstance(n.value, ast.Name) and n.value.id == pname
+                    and isinstance(n.slice, (ast.Constant, ast.UnaryOp))):
+                continue
+            cons = f"{path}::{hn}::C05-EMPTYPATH::{pname}[{C.unparse(n.slice)}]#{k}"
+            k += 1
+            guarded = False
+            c = n
+            while c in parents and not guarded:
+                par = parents[c]
+                if isinstance(par, ast.BoolOp) and isinstance(par.op, ast.And):
+                    i = par.values.index(c) if c in par.values else 0
+                    guarded = any(_guards_nonempty(v, pname) for v in par.values[:i])
+                elif isinstance(par, (ast.If, ast.IfExp, ast.While)):
+                    body = par.body if isinstance(par.body, list) else [par.body]
+                    if any(c is b for b in body) and _guards_nonempty(par.test, pname):
+                        guarded = True
+                    if isinstance(par, ast.If) and any(c is b for b in par.orelse) and isinstance(par.test, ast.UnaryOp) and \
+                            isinstance(par.test.op, ast.Not) and _guards_nonempty(par.test.operand, pname):
+                        guarded = True
+                elif isinstance(par, ast.Try) and any(c is b for b in par.body):
+                    for hd in par.handlers:
+                        tn = {dotted(e) for e in (hd.type.elts if isinstance(hd.type, ast.Tuple) else [hd.type])} if hd.type is not None else {"*"}
+                        if tn & {"IndexError", "LookupError", "Exception", "*"}:
+                            guarded = True
+                c = par
+            if guarded:
+                r.ok(cons, C.loc(h, n), "element looked at only when the path has one")
+            else:
+                r.violation(cons, C.loc(h, n),
+                            f"{hn} ({via}) reads `{C.unparse(n)}` unconditionally: the empty "
+                            f"path — the complete explicit path of a one-tensor network, which array_contract_tree passes "
+                            f"itself — raises IndexError instead of giving the single-leaf contraction")
+    return r
+
+
+def _positive_floor(e):
+    """`max(c, ...)` / `... + c` with a positive constant: never zero for a non-negative counter."""
+    pos = lambda x: isinstance(x, ast.Constant) and isinstance(x.value, (int, float)) and not isinstance(x.value, bool) and x.value > 0
+    if isinstance(e, ast.Call) and dotted(e.func) == "max" and any(pos(a) for a in e.args):
+        return True
+    if isinstance(e, ast.BinOp) and isinstance(e.op, ast.Add) and (pos(e.left) or pos(e.right) or _positive_floor(e.left) or _positive_floor(e.right)):
+        return True
+    return False
+
+
+def rule_zerostep(ctx):
+    """(defect F25) A network of one tensor is contracted in no steps, so a pathfinder's running operation count
+    ends at the 0 it started from; a finder that reports the logarithm of that count must floor it (`max(1, .)`,
+    `. + 1`) or test it, otherwise it raises ValueError instead of returning the empty path."""
+    r = RuleResult("C05-ZEROSTEP", "a finder's operation count is floored before its logarithm is taken", 1)
+    cp = _cp(ctx)
+    m = ctx.p.modules[C.BASIC]
+    for f in m.all_funcs:
+        fl = None
+        k = 0
+        for call in (n for n in walk_local(f.node) if isinstance(n, ast.Call)):
+            if dotted(call.func) not in ("math.log", "math.log2", "math.log10", "log", "log2", "log10") or not call.args:
+                continue
+            fl = fl or ctx.flow(f)
+            nid = fl.node_of_expr(call)
+            d = fl.deps(call.args[0], nid, "may")
+            if not any((x[0] == "attr" and x[2] == "flops") or (x[0] == "attrname" and x[1] == "flops") for x in d):
+                continue
+            cons = f"{C.BASIC}::{f.qual}::C05-ZEROSTEP::log#{k}"
+            k += 1
+            arg = call.args[0]
+            ok = _positive_floor(arg)
+            if not ok and isinstance(arg, ast.Name):
+                defs = fl.defs_reaching(arg.id, nid)
+                ok = bool(defs) and all(d_.value is not None and _positive_floor(d_.value) for d_ in defs)
+            if not ok:
+                names = {n.id for n in ast.walk(arg) if isinstance(n, ast.Name)}
+                for i_, t in C.enclosing_ifs(f, C.enclosing_stmt(f, call)):
+                    if t and any(isinstance(x, ast.Name) and x.id in names for x in ast.walk(i_.test)) and \
+                            any(isinstance(x, (ast.Gt, ast.GtE, ast.NotEq)) for x in ast.walk(i_.test)) or \
+                            (t and isinstance(i_.test, ast.Name) and i_.test.id in names):
+                        ok = True
+            if ok:
+                r.ok(cons, C.loc(f, call), "count floored or tested before the logarithm")
+            else:
+                r.violation(cons, C.loc(f, call), f"`{C.unparse(call)}`: the argument comes from a processor's `.flops`, which is still 0 when "
+                            "the network has a single tensor (no step was taken) — math domain error instead of the empty path")
+    return r
+
+
+def rule_nonempty(ctx):
+    """(seed C05_7) The label-propagation partitioner picks `scores.most_common(1)[0]`; a tensor that shares no
+    index with the rest of its sub-graph has no neighbour to score, so the tally has an entry only if one is
+    written on *every* path from its creation to the pick (the 'memory' bias on the current label is that entry).
+    Statement CFG: every path from the empty tally's creation to the subscripted pick passes a keyed store that is
+    not inside a loop or branch of its own."""
+    r = RuleResult("C05-NONEMPTY", "a tally that is picked from has an entry on every path", 2)
+    for path in ("cotengra/pathfinders/path_labels.py",):
+        m = ctx.p.modules.get(path)
+        C.require(m is not None, f"{path} not found")
+        for f in m.all_funcs:
+            fl = None
+            k = 0
+            for sub in (n for n in walk_local(f.node) if isinstance(n, ast.Subscript)):
+                v = sub.value
+                if not (isinstance(v, ast.Call) and isinstance(v.func, ast.Attribute) and v.func.attr == "most_common"
+                        and isinstance(v.func.value, ast.Name) and isinstance(sub.slice, ast.Constant)):
+                    continue
+                name = v.func.value.id
+                fl = fl or ctx.flow(f)
+                use = fl.node_of_expr(sub)
+                cons = f"{path}::{f.qual}::C05-NONEMPTY::{name}#{k}"
+                k += 1
+                defs = [d for d in fl.defs_reaching(name, use) if d.kind == "assign"]
+                stores = set()
+                for n in fl.cfg.nodes:
+                    st = n.ast
+                    if n.kind == "stmt" and isinstance(st, (ast.Assign, ast.AugAssign)):
+                        tg = st.targets if isinstance(st, ast.Assign) else [st.target]
+                        if any(isinstance(t, ast.Subscript) and isinstance(t.value, ast.Name) and t.value.id == name for t in tg):
+                            stores.add(n.id)
+                bad = None
+                undecided = False
+                for d in defs:
+                    val = d.value
+                    if not (isinstance(val, ast.Call) and dotted(val.func) in ("collections.Counter", "Counter", "dict", "collections.defaultdict", "defaultdict")
+                            and not (val.args and dotted(val.func) in ("collections.Counter", "Counter", "dict"))):
+                        undecided = True
+                        continue
+                    if not fl.cfg.all_paths_pass(d.node, stores, use):
+                        bad = d
+                if bad is not None:
+                    r.violation(cons, C.loc(f, sub), f"`{C.unparse(sub)}`: `{name}` is created empty at line {bad.value.lineno} and a path reaches the "
+                                "pick without writing an entry — a tensor without neighbours (disconnected network, scalar) then raises "
+                                "IndexError instead of keeping its label, and no contraction is returned")
+                elif undecided or not defs:
+                    r.exempt(cons, C.loc(f, sub), f"`{name}` is not created empty here: not decided")
+                else:
+                    r.ok(cons, C.loc(f, sub), f"every path from the empty `{name}` to the pick writes an entry")
+    return r
+
+
 def _shared_rules():
     """Completion of partial caller-supplied paths needs the converters to know the number of inputs (F22)."""
     out = []
@@ -867,4 +1184,4 @@ def _shared_rules():
     return out
 
 
-RULES = [rule_consume, rule_remain, rule_complete, rule_linearids, rule_steps, rule_childless, rule_labels, rule_edgepath] + _shared_rules()
+RULES = [rule_nonempty, rule_zerostep, rule_emptypath, rule_cpstate, rule_consume, rule_remain, rule_complete, rule_linearids, rule_steps, rule_childless, rule_labels, rule_edgepath] + _shared_rules()
